@@ -201,6 +201,8 @@ func (e *Variable) Assign(newVal reflect.Value, dataContext IDataContext, memory
 			err := e.Variable.ValueNode.SetArrayValueAt(int(e.ArrayMapSelector.Value.Int()), newVal)
 			if err == nil {
 				memory.ResetVariable(e)
+				// the same element may be read through another selector text, forget everything read from the array
+				memory.ResetVariable(e.Variable)
 			}
 
 			return err
@@ -209,6 +211,8 @@ func (e *Variable) Assign(newVal reflect.Value, dataContext IDataContext, memory
 			err := e.Variable.ValueNode.SetMapValueAt(e.ArrayMapSelector.Value, newVal)
 			if err == nil {
 				memory.ResetVariable(e)
+				// the same entry may be read through another selector text, forget everything read from the map
+				memory.ResetVariable(e.Variable)
 			}
 
 			return err
